@@ -218,8 +218,9 @@ fn attribute_maps(d: Dialect) -> Vec<Vec<(String, String)>> {
         _ => vec!["ID", "Note", "gene_id", "x"],
     };
     let vals: Vec<&str> = match d {
-        Dialect::GFF3 => vec!["v", "1", "a b", "y.z", "-"],
-        _ => vec!["v", "1", "a_b", "y.z", "-"],
+        Dialect::GFF3 => vec!["v", "1", "a b", "y.z", "-", "p:q|r"],
+        // ',' and '=' are ordinary characters in the GFF2/GTF2 attribute syntax
+        _ => vec!["v", "1", "a_b", "y.z", "-", "p,q", "x=y"],
     };
     let p = |k: &str, v: &str| (k.to_string(), v.to_string());
     let mut maps: Vec<Vec<(String, String)>> = vec![vec![]];
